@@ -32,7 +32,7 @@ belongs to a recorded finding):
                        command naming it (re-runs of a finished instance in a merged flow are C02's subject).
 
 Recorded findings (keys): `live-parent-any-output`, `sequential-task`, `abs-trigger-in-group`,
-`other-flow-member`, `unpooled-object-triggered` — see findings/C28.json.  The judge never calls the transition functions of the model.
+`other-flow-member`, `unpooled-object-triggered`, `queued-row-survives-removal` — see findings/C28.json.  The judge never calls the transition functions of the model.
 -/
 import CylcModel.Sched3TrigJson
 import CylcModel.Generated.TrigFlags
@@ -81,6 +81,7 @@ structure Ob where
   msgs : List MsgRec
   toWaiting : List Key         -- proxies whose status went (back) to waiting in this op
   unpooledPrep : List Key      -- objects that entered job preparation while they were not the pooled proxy
+  dbStates : List (Key × List Nat)   -- (instance, flow numbers) of the `task_states` rows, when observed
   stopped : Bool
   stopMode : Bool
   deriving Inhabited
@@ -116,7 +117,11 @@ def parseOb (ob : Json) : Ob :=
     | some [p, n, _, new, _, _, _, inPool] =>
       if jStr? new == some "preparing" && jBool? inPool == some false then do pure ((← jInt? p), (← jStr? n)) else none
     | _ => none
-  { pool, pre, now, launch, msgs, toWaiting, unpooledPrep,
+  let dbStates := ((jArrField? ((jField? ob "xdb").getD Json.null) "states").getD []).filterMap fun r =>
+    match jArr? r with
+    | some (p :: n :: fl :: _) => do pure (((← jInt? p), (← jStr? n)), natList (some fl))
+    | _ => none
+  { pool, pre, now, launch, msgs, toWaiting, unpooledPrep, dbStates,
     stopped := (jOptField ob "stop").isSome, stopMode := (jOptField ob "stop_mode").isSome }
 
 def Ob.get? (o : Ob) (k : Key) : Option PO := o.pool.find? (·.key == k)
@@ -227,7 +232,13 @@ def judgeAll (g : Graph) (seqTasks : List String) (ops : List Json) (trigs : Lis
               let stopping := o.stopped || o.stopMode || oj.stopMode || oj.stopped
               let ls := o.launch.filter (·.key == m)
               if !stopping && ls.isEmpty then
-                fails := fails ++ [⟨if seq then some "sequential-task" else none,
+                -- the command erases the member's history in the triggered flows before it respawns it; a
+                -- `task_states` row of the member in those flows right after the command means it did not
+                let survives := a.isNone && match f with
+                  | some (x :: xs) => after.dbStates.any fun r => r.1 == m && inter (x :: xs) r.2
+                  | _ => false
+                fails := fails ++ [⟨if seq then some "sequential-task"
+                    else if survives then some "queued-row-survives-removal" else none,
                   s!"start-not-launched: op {i}: group-start member {showKey m} (before: {(b.map (·.st)).getD "not in the pool"}) not launched by the next main loop (op {j})"⟩]
               for l in ls do
                 match f with
@@ -293,8 +304,14 @@ def judgeAll (g : Graph) (seqTasks : List String) (ops : List Json) (trigs : Lis
                   let liveParent := bad.any fun a => match before.get? (a.1.pt, a.1.task) with
                     | some x => (x.st == "submitted" || x.st == "running") && !x.out.isEmpty
                     | none => false
+                  -- the member was pooled in other flows only: the command neither removed nor respawned it, so it
+                  -- kept the prerequisite states of its earlier run and was later absorbed by the triggered flow
+                  let otherFlow : Bool := match b, f with
+                    | some x, some ff => !(inter ff x.fl) && !(ff.isEmpty && x.fl.isEmpty)
+                    | _, _ => false
                   let key := if implicit || seq then some "sequential-task"
                     else if viaAbs then some "abs-trigger-in-group"
+                    else if otherFlow then some "other-flow-member"
                     else if liveParent then some "live-parent-any-output" else none
                   fails := fails ++ [⟨key, s!"before-in-group: op {i}: member {showKey m} launched by op {j} before its in-group prerequisite(s) {bad.map fun a => s!"{a.1.pt}/{a.1.task}:{a.1.out}"} (before the trigger: {(b.map (·.st)).getD "not in the pool"})"⟩]
   -- ran_twice over the members of all triggers
@@ -326,7 +343,8 @@ def handle (i o : Json) : Except String Reply := do
   let c ← parseCase i
   -- the behaviour flag probed from the live code decides which variant of the model runs
   let gr : Graph := { c.graph with anyOutput := CylcModel.TrigFlags.anyOutput,
-                                   triggerUnpooled := CylcModel.TrigFlags.triggerUnpooled }
+                                   triggerUnpooled := CylcModel.TrigFlags.triggerUnpooled,
+                                   rowInsertMode := CylcModel.TrigFlags.rowInsertMode }
   let c := { c with graph := gr }
   let tasksJ := (jField? ((jField? i "graph").getD Json.null) "tasks").getD Json.null
   let seqTasks := c.graph.tasks.filterMap fun t =>
